@@ -230,6 +230,31 @@ func c02Unit(name string, lvl int) core.Unit {
 				}, V, "single", []string{op, u.Strs[ai]})
 			}
 		}
+		// every member of the one-slot substitution family as a bound (not only the stride sample),
+		// on a reduced probe set: 40 stride probes plus the bound itself
+		slot := map[string]bool{}
+		for _, s := range gen.SlotFamily(name) {
+			slot[s] = true
+		}
+		Vs := stride(all, 40)
+		nslot := 0
+		for _, ai := range adm {
+			if !slot[u.Strs[ai]] || boundSet[ai] {
+				continue
+			}
+			nslot++
+			a := u.Vers[ai]
+			probes := append(append([]int{}, Vs...), ai)
+			for _, op := range syn.Ops {
+				rs := op + u.Strs[ai] + syn.SingleSuffix
+				check(rs, func(v eco.Ver) (bool, bool) {
+					c, ok := cmp(v, a)
+					return gen.Sat(op, c), ok
+				}, probes, "single", []string{op, u.Strs[ai]})
+				r.Add("states", 1)
+			}
+		}
+		r.AddScope(name, "slot_family_bounds", int64(nslot))
 		r.Sample("single", map[string]any{"eco": name, "range": syn.Ops[0] + u.Strs[A[len(A)/2]], "probe": u.Strs[V[len(V)/2]]})
 		// conjunctions and disjunctions
 		A2 := stride(A, nA2)
@@ -381,7 +406,7 @@ func init() {
 				"distinct_nontrivial":           r.Counters["true_results"],
 			}
 		},
-		Rule:        "per ecosystem: every comparator of the documented syntax table x every bound of a stride sub-universe of U_E (plus one bound per distinct letter, every member with a component of 5 or more digits, and every accepted version whose identifiers contain a word of some range syntax: and/or/x/to/v... alone or embedded, under 14 separator templates) x every probe; every comparator pair x AND separator x bound pair x probe; every comparator pair x OR separator; (x AND y) OR z. Expected value computed from the real Compare. states = distinct range strings built; transitions = range parses + Contains calls; distinct_nontrivial = evaluations whose result is true (range and probe interact non-vacuously).",
+		Rule:        "per ecosystem: every comparator of the documented syntax table x every bound of a stride sub-universe of U_E (plus one bound per distinct letter, every member with a component of 5 or more digits, and every accepted version whose identifiers contain a word of some range syntax: and/or/x/to/v... alone or embedded, under 14 separator templates); every accepted member of the one-slot substitution family of the ecosystem's typical shapes x every comparator x (40 stride probes + the bound itself) x every probe; every comparator pair x AND separator x bound pair x probe; every comparator pair x OR separator; (x AND y) OR z. Expected value computed from the real Compare. states = distinct range strings built; transitions = range parses + Contains calls; distinct_nontrivial = evaluations whose result is true (range and probe interact non-vacuously).",
 		Assumptions: []string{"bounds beginning with a comparator character or containing separator characters are out of scope (property text)", "syntax table (comparators, separators) is written from the documentation; maven has no comparator syntax"},
 	})
 }
